@@ -198,6 +198,7 @@ type wb struct {
 	closed  bool
 	outBase float64
 	fails   []string
+	maxID   uint64
 }
 
 type H struct {
@@ -469,6 +470,21 @@ func (w *wb) flush() string {
 		return "FAIL recv-loop-not-started"
 	}
 	head := []string{fmt.Sprintf("idx %d", w.v.Index())}
+	// property op part: the ids allocated by this build are pairwise distinct and larger than every id allocated before
+	seenNow := map[uint64]bool{}
+	maxNow := w.maxID
+	for _, g := range groups {
+		for _, id := range g.Ids {
+			if id <= w.maxID || seenNow[id] {
+				head = append(head, fmt.Sprintf("FAIL id-reused-or-not-increasing id=%d after=%d", id, w.maxID))
+			}
+			seenNow[id] = true
+			if id > maxNow {
+				maxNow = id
+			}
+		}
+	}
+	w.maxID = maxNow
 	w.mu.Lock()
 	for _, g := range groups {
 		parts := make([]string, len(g.Ids))
@@ -527,6 +543,7 @@ func (w *wb) kill(cid, fwd int) string {
 		return "nostream"
 	}
 	w.unlockAll()
+	epoch0 := w.v.Epoch(cid)
 	fs.in <- item{err: errStream}
 	deadline := time.Now().Add(waitLong)
 	var nf *fakeStream
@@ -539,7 +556,18 @@ func (w *wb) kill(cid, fwd int) string {
 	if nf == fs || !w.drainFresh() {
 		return "FAIL stream-not-recreated"
 	}
-	return join([]string{fmt.Sprintf("ep %d", w.v.Epoch(cid)), w.tblStr(cid)}, w.collect(nil))
+	head := []string{fmt.Sprintf("ep %d", w.v.Epoch(cid)), w.tblStr(cid)}
+	if w.v.Epoch(cid) != epoch0 {
+		// property op part: this recv loop won the epoch CAS, i.e. the code decided to fail the pending requests of
+		// this stream before re-creating it: none of them may still be pending
+		for id, host := range w.v.TableHost(cid) {
+			if host == fwdName(fwd) {
+				head = append(head, fmt.Sprintf("FAIL pending-entry-survives-recreate id=%d", id))
+				break
+			}
+		}
+	}
+	return join(head, w.collect(nil))
 }
 
 func (w *wb) closeOp() string {
